@@ -274,7 +274,7 @@ def check_c06(ctx):
     q = ctx.tier == "quick"
     sn, tn, hn = (11, 40, 60) if q else (15, 80, 120)
     cfgs = boxes.mixed(tn)
-    suspects, scanned = mixed_planner_scan(ctx, 200 if q else 400, 20)
+    suspects, scanned = mixed_planner_scan(ctx, 200 if q else 700, 20 if q else 40)
     dense_n = max(tn, hn)
     for n, s in suspects[:8]:
         cfgs.append(mkcfg("Mixed", max_n=n, ram=s, st=1))
